@@ -153,7 +153,7 @@ def Cfg.size (c : Cfg) : Path → Nat
   | .doh => 0
 
 /-- The production sizes (defaults for the plain-DNS server). -/
-def Cfg.prod : Cfg := { udp := 512, tcp := 512, doq := 65535, upsUdp := 4096, upsTcp := 65535 }
+def Cfg.prod : Cfg := { udp := 512, tcp := 512, doq := 65537, upsUdp := 4096, upsTcp := 65535 }
 
 /-- One receive on `path` with buffer `buf`.  On the upstream paths the request `pre` has been
 packed into the same buffer before the reply is read. -/
